@@ -124,12 +124,22 @@ def run(ctx: common.Ctx):
         'translate / create_cleavage_graph are dumped (method wrappers, no change to /repo) and the '
         'checkpoint predicates of Model/Graph.lean are evaluated on them by the driver (G-* streams: '
         'language of every reading frame = sequences of all compatible combinations; cleavage sites '
-        'are node boundaries)')
+        'are node boundaries). Layer G, function level (internal stream G-tvgbuild): for every case of the '
+        'trypsin-noexc stream whose records are all SNV / RNAEditingSite / INDEL, the graph the real '
+        'create_variant_graph built (dump after the stage, with reference ranges and typed edges) is compared '
+        'in canonical form - nodes keyed by frame / kind / range or record ids / sequence, typed edges as '
+        'pairs of keys, sorted - with the graph of the Lean model Tvg.createVariantGraph on the same '
+        'transcript fields and the same records in the order the real call received them; '
+        'non-trivial = the graph has a variant node')
     base = dict(vary=True, per_tx=(1, 7), max_size=6, window=24, witness=False, as_frac=0.3)
-    res = cv_checks.explore(ctx, ctx.n(220, 4000), dict(base, exception=None, variations=['collapse'], stages=True))
+    res = cv_checks.explore(ctx, ctx.n(220, 4000), dict(base, exception=None, variations=['collapse'], stages=True,
+                                                        tvgbuild=True))
     stats = dict(ctx.coverage['worker_stats'])
     judge(ctx, res, 'trypsin-noexc')
     cv_checks.judge_checkpoints(ctx, res, 'missing')
+    # Layer G, function level: structural correspondence of the real graph after
+    # create_variant_graph with Model/Tvg.lean (cases with only SNV / RNAEditingSite / INDEL records)
+    cv_checks.judge_tvgbuild(ctx, res)
     res = cv_checks.explore(ctx, ctx.n(120, 2000), dict(base, exception='auto'))
     judge(ctx, res, 'trypsin-exc')
     stats2 = dict(ctx.coverage['worker_stats'])
@@ -172,8 +182,8 @@ def run(ctx: common.Ctx):
                                     'all-enzymes': stats3, 'special-codons': stats4,
                                     'nested-in-splicing': stats5}
     ctx.assumptions += [
-        'PARTIAL: graph construction (TVG/PVG) is not modelled; it is tied to the definition only by '
-        'this differential. Alternative-splicing records are in (without nested intronic variants); fusion and circRNA backbones have their own streams (one fusion / one circRNA per input, assembled by the harness from the record fields).',
+        'PARTIAL: of the graph construction only create_variant_graph on small records is modelled function by function (Model/Tvg.lean, tied structurally by the G-tvgbuild stream); the later stages (fit_into_codons, translate, cleavage graph, traversal) are tied to the definition only by '
+        'this differential and the Layer G checkpoints. Alternative-splicing records are in (without nested intronic variants); fusion and circRNA backbones have their own streams (one fusion / one circRNA per input, assembled by the harness from the record fields).',
         'transcript-level inputs of the definition come through the repository loaders '
         '(VariantRecordPool.load_variants, get_transcript_sequence): covered by C11/C13/C14',
         'canonical pool comes from the real create_unique_peptide_pool (C10)']
